@@ -264,9 +264,23 @@ def case_posterior(B, cfg):
             pop.get_covariate_names())}
     if variant.get('no_duration') and cfg['model'] == 'pk':
         kw['dose_duration_key'] = None
+    if variant.get('undosed') and cfg['model'] == 'pk':
+        # the dataset carries no dose column at all: nobody is dosed
+        df = df.drop(columns=['Dose', 'Duration'])
+        kw['dose_key'] = None
+        kw['dose_duration_key'] = None
     try:
         if pop is not None and cfg.get('pop_first', True):
             ctrl.set_population_model(pop)
+        if cfg.get('earlier_doses'):
+            # call history: an earlier (dosed) dataset over the same
+            # individuals was set before; the posterior reflects the dataset
+            # set last
+            cfg0 = dict(cfg, doses=cfg['earlier_doses'])
+            df0, _ = frame(B, cfg0, truth(B, cfg0), {})
+            ctrl.set_data(df0, **{k: v for k, v in kw.items()
+                                  if k not in ('dose_key',
+                                               'dose_duration_key')})
         ctrl.set_data(df, **kw)
         if pop is not None and not cfg.get('pop_first', True):
             import warnings
@@ -554,6 +568,17 @@ def jobs(tier):
                 model='pk', n_out=1, ems=['Gaussian'], n_ids=2,
                 ids=['7', '3'], doses=doses, direct=(k % 2 == 0),
                 variant=v), FACADE))
+    # call histories: an earlier dosed dataset on the same controller
+    for k, (doses, earlier, v) in enumerate((
+            ([[], []], [['D'], ['B', 'D']], {'undosed': True}),
+            ([[], []], [['B'], ['D']], {'undosed': True,
+                                        'order': 'interleaved'}),
+            ([['D'], []], [['B', 'D'], ['D']], {}),
+            ([['B'], ['D', 'D']], [['D'], ['B']], {'no_duration': True}))):
+        out.append(('posterior', 'case_posterior', dict(
+            model='pk', n_out=1, ems=['Gaussian'], n_ids=2,
+            ids=['7', '3'], doses=doses, earlier_doses=earlier,
+            direct=(k % 2 == 0), variant=v), FACADE))
     # hierarchical posteriors
     comps = [[U('gaussian'), U('pooled')], [U('lognormal_nc'), U('hetero')],
              [U('pooled'), U('gaussian_nc')], [U('gaussian', 2)],
